@@ -65,13 +65,15 @@ def e2e_esc(b):
         else: out.append(c)
     return out.decode('latin-1')
 
-def one_history(exe, root, seed, steps, stats):
+def one_history(exe, root, seed, steps, stats, shim=None):
     rng = e2e.Rng(seed)
     a = e2e.Arr(root, exe, ndisks=1 + rng.below(4), nparity=1 + rng.below(6), hashsize=rng.choice([16, 16, 8, 4, 2, 12]),
                 splits=rng.choice([1, 1, 2, 3]), ncontent=1 + rng.below(4))
     s = sim.Sim(a, rng.fork())
     s.populate(3 + rng.below(3))
     s.churn = rng.chance(1, 3)
+    if shim and seed % 4 != 0:
+        s.shim = shim; s.fake_now = 1_600_000_000 + rng.below(10**7)      # three quarters of the histories: commands hours to days apart
     s.sync(*rng.choice([[], ['--test-force-murmur3'], ['--test-force-spooky2']]))
     for step in range(steps):
         s.fs_random(1 + rng.below(5))
@@ -110,7 +112,7 @@ def one_history(exe, root, seed, steps, stats):
         pr = compare_views(a, s, dec, stats)
         if pr:
             return fail('binary view of the loaded state differs from the decoded state: ' + pr[0], '\n'.join(pr[:10]))
-        if rng.chance(1, 3):
+        if rng.chance(1, 2):
             r2 = a.cmd('test-rewrite')
             blobs2 = [open(c, 'rb').read() for c in a.contents]
             stats['rewrites'] = stats.get('rewrites', 0) + 1
@@ -179,7 +181,7 @@ def main(tier, seed):
     for t in STATIC_THEOREMS:
         chk.oblig('axiom audit: ' + t, ax.get(t) is not None and all(x in vlib.STD_AXIOMS for x in ax[t]), str(ax.get(t)))
     try:
-        exe = vlib.build_snapraid()
+        exe = vlib.build_snapraid(); shim = vlib.build_shim()
     except vlib.BuildError as e:
         chk.violation('build of /repo failed: ' + str(e)[:300], str(e), False, 'build'); chk.finish()
     nhist = 60 if tier == 'quick' else 600
@@ -187,7 +189,7 @@ def main(tier, seed):
     stats = {}
     from concurrent.futures import ThreadPoolExecutor
     def job(i):
-        return i, one_history(exe, os.path.join(vlib.scratch(), 'h%d' % i), seed * 100000 + 50000 + i, steps, stats)
+        return i, one_history(exe, os.path.join(vlib.scratch(), 'h%d' % i), seed * 100000 + 50000 + i, steps, stats, shim)
     nemp = 24 if tier == 'quick' else 300
     def job2(i):
         return nhist + i, emptied_disk_history(exe, os.path.join(vlib.scratch(), 'e%d' % i), seed * 100000 + 55000 + i, stats)
@@ -204,7 +206,7 @@ def main(tier, seed):
             chk.violation('C10 static obligation failed: ' + o[0], o[0] + '\n' + o[2], False, 'static')
     chk.evaluations = stats.get('files', 0)
     chk.distinct = stats.get('files', 0)
-    chk.rule = ('every content file left by every command of %d seeded histories (grammar of C06): Lean decode -> Lean re-serialise must be byte-identical; all copies identical; decoded files/links/per-stripe info must equal `list -l` and `status -G -l` of the binary; `test-rewrite` byte-identical (1/3 of steps); plus %d emptied-disk histories (a disk loses every file while its extent reaches beyond all live files, partial sync -E -B k saves the state): C06 parity oracle on the reloaded state and fix of a lost file of another disk' % (nhist, nemp))
+    chk.rule = ('every content file left by every command of %d seeded histories (grammar of C06): Lean decode -> Lean re-serialise must be byte-identical; all copies identical; decoded files/links/per-stripe info must equal `list -l` and `status -G -l` of the binary; `test-rewrite` byte-identical (1/2 of steps); the commands of three quarters of the histories run hours to days apart (frozen clock); plus %d emptied-disk histories (a disk loses every file while its extent reaches beyond all live files, partial sync -E -B k saves the state): C06 parity oracle on the reloaded state and fix of a lost file of another disk' % (nhist, nemp))
     chk.samples = [dict(stats)]
     chk.corr['CODEC'] = dict(stats)
     chk.finish()
